@@ -53,6 +53,10 @@ def generate(rng, idx, tier, variant):
         if rng.random() < 0.08:
             # one array of the caller's assigned, whole, to an endogenous and to another variable (attribute or key path)
             ops.append({'op': 'assign_shared', 'k': rng.randrange(8), 'via': rng.choice(['attr', 'item', 'replace_values'])})
+        if rng.random() < 0.06:
+            # the instance's own lag / lead lengths raised after construction (`model.lags = 3`): from then on they, not the
+            # class's, bound the default range and decide which explicit requests are refused
+            ops.append({'op': 'widen_margins', 'dl': rng.choice([0, 1, 1, 2]), 'dd': rng.choice([0, 1, 1, 2])})
         if ops and rng.random() < 0.2 and not has_labels:
             # history: the model is replaced by a reindexed version of itself (shifted, shrunk or grown)
             dn = rng.choice([0, 0, -1, -2, 1, 2])
@@ -232,6 +236,17 @@ def execute(schedule, ctx):
     sp_now = dict(spec['span'])
     for step, op in enumerate(schedule['ops']):
         ctx.step = step
+        if op['op'] == 'widen_margins':
+            nl_, nd_ = lags + op['dl'], leads + op['dd']
+            if (op['dl'] or op['dd']) and nl_ + nd_ + 1 <= n:
+                m.lags, m.leads = nl_, nd_
+                lags, leads = nl_, nd_
+                ctx.probe('history:instance-lags-leads-raised')
+            ctx.log(step, 'widen_margins', lags, leads)
+            ctx.outcome('widen_margins', 'ok')
+            continue
+        if op['op'] == 'reindex' and op['n'] < lags + leads + 1:
+            continue  # (margins raised since the schedule was drawn: the new span could not hold one solvable period)
         if op['op'] == 'reindex':
             sp_now = dict(sp_now, origin=sp_now.get('origin', 0) + op['shift'], n=op['n'])
             new_span = spans.make_span(sp_now)
